@@ -15,7 +15,7 @@ from hypothesis import strategies as st
 from .. import entropy
 from ..c07_ref import FIELDS, RefACL
 from ..harness import CaseResult, Ctx, enum_run, hyp_run
-from ..simutil import base_cfg, exc_msg, exc_sig, new_game, seed_all
+from ..simutil import base_cfg, computer, exc_msg, exc_sig, link, new_env, new_game, seed_all
 
 ID = "C07"
 WORKERS = {"quick": 8, "thorough": 16}
@@ -29,7 +29,14 @@ RULE = (
     "single-rule lists over the covering field domain x all packets of the covering packet domain, all ordered "
     "two-rule lists over a reduced domain (both position orders); Hypothesis: lists of up to 24 rules built around focus "
     "packets so that rules overlap and shadow each other. Separate sub-domain `falsy`: port 0 (NONE) in a rule and the "
-    "last position max_acl_rules-1 (oracle accepts every documented reading there). Non-trivial (rule list, packet) "
+    "last position max_acl_rules-1 (oracle accepts every documented reading there). Traffic mode (`send` ops): a "
+    "firewall with one host per zone; a frame sent by a zone's host must be judged by the two lists the documentation names "
+    "for its (ingress zone, egress zone) pair - ingress side first, egress side only when permitted - asserted through the "
+    "hit counters of all six lists and the port the firewall forwards on; all six pairs x permit/deny/implicit on each "
+    "side x opposite catch-alls on the other lists are enumerated, random disagreeing lists come from Hypothesis. Episode "
+    "mode (`reset` ops): the scenario is built through PrimaiteGymEnv and after every env.reset() each list must again be "
+    "exactly the scenario-loaded one (positions 0/21/22/23 enumerated on router and firewall lists), with verdicts and "
+    "counters following the reference. Non-trivial (rule list, packet) "
     "pair = the packet is matched by >=2 rules with different actions, or the deciding rule combines a wildcard range "
     "with an unspecified field; `distinct_nontrivial` counts cases holding such a pair, `nontrivial_pairs_distinct` "
     "counts the pairs themselves (distinct by rule list and packet)."
@@ -43,6 +50,14 @@ ASSUMPTIONS = [
     "read-back equality ignores uuid; 'changes only the addressed position' is judged on rule content and hit counters",
     "rule fields stay inside the documented domain: protocols tcp/udp/icmp, named ports, dotted-quad addresses and "
     "wildcard masks, positions 0..max_acl_rules-2; port 0 and position max_acl_rules-1 only in the falsy sub-domain",
+    "traffic mode: which lists judge a packet is derived from docs/source (firewall.rst): external_inbound / "
+    "internal_outbound / dmz_outbound for the zone a frame arrives from, then internal_inbound / dmz_inbound / "
+    "external_outbound for the zone it leaves to; if the ingress-side list denies, a hit on the egress-side list's deciding "
+    "rule is tolerated (not required); the firewall's ARP cache is pre-filled with the three hosts, hit counters present "
+    "before the first read-back (ARP sent while the network is being built) are the baseline; ICMP on the wire is an echo "
+    "reply with a payload so that the destination host stays silent; UDP port 219 is not sent (ARP frames need an ARP payload)",
+    "episode mode: env.reset() rebuilds the simulation from the same scenario, so the model restarts from the scenario's "
+    "rules (router defaults at 22/23 only where the scenario is silent) with zero hit counters",
     "port 0 (PORT_LOOKUP['NONE']) in a rule is convention-open: the oracle accepts 'specified port 0' or 'unspecified' "
     "as long as describe_state and the verdicts agree on one reading",
 ]
@@ -59,6 +74,30 @@ ROUTER_DEFAULTS = {
     23: dict(zip(FIELDS, ["PERMIT", "icmp", None, None, None, None, None, None])),
 }
 A1, A2, B1, B2, OUT = "10.0.1.1", "10.0.1.77", "10.0.2.5", "10.0.2.9", "172.16.9.9"
+
+# firewall zones for the traffic mode: zone -> (host name, host address, firewall port number). docs/source
+# (simulation_components/network/nodes/firewall.rst, configuration/simulation/nodes/firewall.rst): traffic that enters from
+# the external network is judged by external_inbound, traffic leaving the internal network / the DMZ by internal_outbound /
+# dmz_outbound; traffic going towards the internal network / the DMZ / the external network is then judged by
+# internal_inbound / dmz_inbound / external_outbound.
+ZONES = {"external": ("hx", "10.9.1.10", 1), "internal": ("hi", "10.9.2.10", 2), "dmz": ("hd", "10.9.3.10", 3)}
+INGRESS_LIST = {"external": "fw:external_inbound", "internal": "fw:internal_outbound", "dmz": "fw:dmz_outbound"}
+EGRESS_LIST = {"external": "fw:external_outbound", "internal": "fw:internal_inbound", "dmz": "fw:dmz_inbound"}
+ZONE_PAIRS = [(a, b) for a in ZONES for b in ZONES if a != b]
+PROXY_AGENT = {
+    "ref": "defender", "team": "BLUE", "type": "proxy-agent",
+    "observation_space": {"type": "none", "options": {}},
+    "action_space": {"action_map": {0: {"action": "do-nothing", "options": {}}}},
+    "reward_function": {"reward_components": [{"type": "dummy"}]},
+    "agent_settings": {"flatten_obs": False},
+}
+
+
+def zone_of(ip: str) -> str:
+    for z, (_, addr, _) in ZONES.items():
+        if ip.rsplit(".", 1)[0] == addr.rsplit(".", 1)[0]:
+            return z
+    raise ValueError(f"generator bug: {ip} is in no firewall zone")
 
 
 def _packets(protos, srcs, dsts, sports, dports):
@@ -155,7 +194,7 @@ def rule_cfg(rule: Dict) -> Dict:
     return d
 
 
-def scenario(init: Dict[str, List]) -> Dict:
+def scenario(init: Dict[str, List], hosts: bool = False, agent: bool = False) -> Dict:
     router = {
         "type": "router", "hostname": "r0", "num_ports": 2, "start_up_duration": 0, "shut_down_duration": 0,
         "ports": {1: {"ip_address": "10.0.1.254", "subnet_mask": "255.255.255.0"}},
@@ -178,18 +217,23 @@ def scenario(init: Dict[str, List]) -> Dict:
         },
         "acl": fw_acl,
     }
-    return base_cfg([router, fw], [])
+    nodes, links = [router, fw], []
+    if hosts:  # one host per firewall zone, wired to the firewall's external (1) / internal (2) / dmz (3) port
+        for name, addr, port in ZONES.values():
+            nodes.append(computer(name, addr, gw=addr.rsplit(".", 1)[0] + ".1", start_up_duration=0, shut_down_duration=0))
+            links.append(link("f0", port, name, 1))
+    return base_cfg(nodes, links, agents=[dict(PROXY_AGENT)] if agent else None)
 
 
-def make_frame(pkt):
-    from primaite.simulator.network.protocols.icmp import ICMPPacket
+def make_frame(pkt, src_mac: str = "aa:bb:cc:dd:ee:01", dst_mac: str = "aa:bb:cc:dd:ee:02", on_wire: bool = False):
+    from primaite.simulator.network.protocols.icmp import ICMPPacket, ICMPType
     from primaite.simulator.network.transmission.data_link_layer import EthernetHeader, Frame
     from primaite.simulator.network.transmission.network_layer import IPPacket
     from primaite.simulator.network.transmission.transport_layer import TCPHeader, UDPHeader
 
     proto, src, dst, sport, dport = pkt
     kw = {
-        "ethernet": EthernetHeader(src_mac_addr="aa:bb:cc:dd:ee:01", dst_mac_addr="aa:bb:cc:dd:ee:02"),
+        "ethernet": EthernetHeader(src_mac_addr=src_mac, dst_mac_addr=dst_mac),
         "ip": IPPacket(src_ip_address=src, dst_ip_address=dst, protocol=proto),
     }
     if proto == "tcp":
@@ -197,7 +241,10 @@ def make_frame(pkt):
     elif proto == "udp":
         kw["udp"] = UDPHeader(src_port=sport, dst_port=dport)
     else:
-        kw["icmp"] = ICMPPacket()
+        # on the wire an unsolicited echo *reply* is used, so that the destination host does not answer through the firewall
+        kw["icmp"] = ICMPPacket(icmp_type=ICMPType.ECHO_REPLY) if on_wire else ICMPPacket()
+        if on_wire:
+            kw["payload"] = "c07-echo-payload-0123456"  # echo replies carry the request's payload
     return Frame(**kw)
 
 
@@ -258,7 +305,11 @@ class ListUnderTest:
             exp, got = m.rules.get(pos), s.rules.get(pos)
             if exp != got:
                 ok = False
-                if pos in addressed:
+                if pos in addressed and opkind == "reset":
+                    # one bucket per kind of list: the rule a scenario put there is not what the new episode has
+                    res.violate(f"reset-rule-differs-from-scenario:{'router' if self.name == 'router' else 'firewall'}",
+                                f"{when}: position {pos}: expected {exp}, state has {got}")
+                elif pos in addressed:
                     res.violate(f"{opkind}-readback-mismatch:{via}:{first_diff(exp, got)}", f"{when}: position {pos}: expected {exp}, state has {got}")
                 else:
                     res.violate(f"{opkind}-changed-other-position", f"{when}: position {pos}: expected {exp}, state has {got}")
@@ -298,17 +349,82 @@ def run_case(case: Dict) -> CaseResult:
     init: Dict[str, List] = case.get("init") or {}
     cap = int(case.get("cap", 25))
     act_name = {a.value: a.name for a in ACLAction}
-    used = set(init) | {op[1] for op in ops}
+    LIST_OPS = ("add", "remove", "probe", "probe_all")
+    has_send = any(op[0] == "send" for op in ops)
+    has_reset = any(op[0] == "reset" for op in ops)
+    used = set(init) | {op[1] for op in ops if op[0] in LIST_OPS}
+    if has_send:
+        used |= {f"fw:{x}" for x in FW_LISTS}  # a frame on the wire may touch any of the six lists
     frames: Dict[Tuple, Any] = {}
     labels = set()
-
-    # ---- build: scenario loading is the third front door
-    sim = None
+    game_lists = sorted(n for n in used if not n.startswith("acl:"))
+    world: Dict[str, Any] = {"env": None, "sim": None, "hosts": {}, "ports": {}, "sent": []}
     objs: Dict[str, Any] = {}
-    if any(not n.startswith("acl:") for n in used):
+    luts: Dict[str, ListUnderTest] = {}
+
+    def attach(game):
+        """(Re)bind the list objects of the current episode's simulation; wire up the traffic mode."""
+        world["sim"] = game.simulation
+        net = game.simulation.network
+        objs["router"] = net.get_node_by_hostname("r0").acl
+        fw = net.get_node_by_hostname("f0")
+        for x in FW_LISTS:
+            objs[f"fw:{x}"] = getattr(fw, f"{x}_acl")
+        if has_send:
+            arp = fw.software_manager.arp
+            for zone, (hname, _, pnum) in ZONES.items():
+                host, port = net.get_node_by_hostname(hname), fw.network_interface[pnum]
+                world["hosts"][zone], world["ports"][zone] = host, port
+                nic = host.network_interface[1]
+                # the firewall knows where the three hosts live (what a ping in each direction would teach it)
+                arp.add_arp_cache_entry(ip_address=nic.ip_address, mac_address=nic.mac_address, network_interface=port)
+
+                def recorder(frame, *a, _zone=zone, _real=port.send_frame, **k):
+                    world["sent"].append(_zone)
+                    return _real(frame, *a, **k)
+
+                object.__setattr__(port, "send_frame", recorder)  # observe-only wrapper on this instance
+
+    def bind(opkind: str) -> bool:
+        """Create model + list-under-test for every router/firewall list from the scenario's rules and compare."""
+        for n in game_lists:
+            lut = ListUnderTest(n, objs[n], world["sim"], act_name, 25)
+            if n == "router":
+                for p, r in ROUTER_DEFAULTS.items():
+                    lut.model.add(p, r)
+            for p, r in init.get(n, []):
+                r = rule_dict(r)
+                for f in ("src_port", "dst_port"):  # port 0 / NONE: the read-back decides the reading (see ASSUMPTIONS)
+                    if r[f] == 0:
+                        labels.add("falsy:port0")
+                        got = lut.snap().rules.get(int(p), {}).get(f, "absent")
+                        if got in (0, None):
+                            r[f] = got
+                lut.model.add(int(p), r)
+            if n in init:
+                labels.add("door:cfg")
+            luts[n] = lut
+            if has_send:
+                # with hosts on the wire the construction of the network itself sends frames (ARP) through the firewall:
+                # hits counted before the first read-back are the baseline, not something this property decides
+                s0 = lut.snap()
+                for p in lut.model.rules:
+                    if p in s0.hits:
+                        lut.model.hits[p] = s0.hits[p]
+                lut.model.implicit_hits = s0.implicit_hits
+            if not lut.compare(res, f"after {opkind} {n}", opkind, addressed={int(p) for p, _ in init.get(n, [])}, via="cfg"):
+                return False
+        return True
+
+    # ---- build: scenario loading is the third front door (through PrimaiteGymEnv when the case has later episodes)
+    if game_lists or has_reset:
         boundary = any(int(p) >= 24 for rules in init.values() for p, _ in rules)
         try:
-            game = new_game(scenario(init))
+            if has_reset or case.get("env"):
+                world["env"] = new_env(scenario(init, hosts=has_send, agent=True))
+                game = world["env"].game
+            else:
+                game = new_game(scenario(init, hosts=has_send))
         except Exception as e:
             if boundary and isinstance(e, ValueError):
                 res.label("falsy:last-position:load-refused")  # documented: out-of-bounds position raises ValueError
@@ -317,42 +433,20 @@ def run_case(case: Dict) -> CaseResult:
             else:
                 res.violate(f"raise:load:{exc_sig(e)}", f"loading {init} raised {exc_msg(e)}")
             return res
-        sim = game.simulation
-        net = sim.network
-        objs["router"] = net.get_node_by_hostname("r0").acl
-        fw = net.get_node_by_hostname("f0")
-        for x in FW_LISTS:
-            objs[f"fw:{x}"] = getattr(fw, f"{x}_acl")
+        attach(game)
     else:
         entropy.reset()
         seed_all(0)
-    for n in used:
+    for n in sorted(used):
         if n.startswith("acl:"):
             objs[n] = AccessControlList(name=n, implicit_action=ACLAction[n[4:]], max_acl_rules=cap, sys_log=SysLog("c07"))
-
-    luts: Dict[str, ListUnderTest] = {}
-    for n in sorted(used):
-        lut = ListUnderTest(n, objs[n], sim, act_name, cap if n.startswith("acl:") else 25)
-        if n.startswith("acl:") and lut.model.implicit != n[4:]:
-            res.violate("implicit-action-not-as-constructed", f"{n}: describe_state says {lut.model.implicit}")
-            return res
-        if n == "router":
-            for p, r in ROUTER_DEFAULTS.items():
-                lut.model.add(p, r)
-        for p, r in init.get(n, []):
-            r = rule_dict(r)
-            for f in ("src_port", "dst_port"):  # port 0 / NONE: the read-back decides the reading (see ASSUMPTIONS)
-                if r[f] == 0:
-                    labels.add("falsy:port0")
-                    got = lut.snap().rules.get(int(p), {}).get(f, "absent")
-                    if got in (0, None):
-                        r[f] = got
-            lut.model.add(int(p), r)
-        if n in init:
-            labels.add("door:cfg")
-        if not lut.compare(res, f"after loading {n}", "load", addressed={int(p) for p, _ in init.get(n, [])}, via="cfg"):
-            return res
-        luts[n] = lut
+            lut = ListUnderTest(n, objs[n], None, act_name, cap)
+            if lut.model.implicit != n[4:]:
+                res.violate("implicit-action-not-as-constructed", f"{n}: describe_state says {lut.model.implicit}")
+                return res
+            luts[n] = lut
+    if not bind("load"):
+        return res
 
     def frame_of(pkt):
         f = frames.get(pkt)
@@ -401,12 +495,85 @@ def run_case(case: Dict) -> CaseResult:
             res.extra["nt"].add(hash((lut.rules_key, pkt)))
         return True
 
-    n_adds = n_removes = n_overwrites = n_probes = 0
+    def verdict_of(lut: ListUnderTest, pkt) -> str:
+        mm = lut.model.matching(pkt)
+        return lut.model.rules[mm[0]]["action"] if mm else lut.model.implicit
+
+    def send(zone: str, pkt, when) -> bool:
+        """Put the packet on the wire from the zone's host; the two lists the documentation names must judge it."""
+        ezone = zone_of(pkt[2])
+        if zone_of(pkt[1]) != zone or ezone == zone:
+            raise ValueError(f"generator bug: {pkt} does not cross the firewall from {zone}")
+        pair = f"{zone}->{ezone}"
+        labels.add(f"pair:{pair}")
+        ing, egr = luts[INGRESS_LIST[zone]], luts[EGRESS_LIST[ezone]]
+        right = verdict_of(egr, pkt)
+        if any(verdict_of(luts[n], pkt) != right for n in EGRESS_LIST.values()) and verdict_of(ing, pkt) == "PERMIT":
+            labels.add(f"disagree:{pair}")  # judging by another zone's list would change the outcome
+            res.extra["nt"].add(hash(("send", pair, tuple(sorted((n, tuple(sorted(l.model.rules))) for n, l in luts.items())), pkt)))
+        host, port = world["hosts"][zone], world["ports"][zone]
+        frame = make_frame(pkt, src_mac=host.network_interface[1].mac_address, dst_mac=port.mac_address, on_wire=True)
+        world["sent"].clear()
+        try:
+            host.network_interface[1].send_frame(frame)
+        except Exception as e:
+            res.violate(f"raise:send:{pair}:{exc_sig(e)}", f"{when}: {exc_msg(e)}")
+            return False
+        permitted1, _ = ing.model.decide(pkt)
+        expect_out = []
+        if permitted1:
+            permitted2, _ = egr.model.decide(pkt)
+            expect_out = [ezone] if permitted2 else []
+        else:
+            # a packet refused on the ingress side needs no second verdict; an implementation that still asks the
+            # egress-side list is accepted as long as the hit is on that list's deciding rule
+            mm = egr.model.matching(pkt)
+            snap2 = egr.snap()
+            want = dict(egr.model.hits)
+            if mm:
+                want[mm[0]] = want[mm[0]] + 1
+            if (snap2.hits, snap2.implicit_hits) == (want, egr.model.implicit_hits + (0 if mm else 1)):
+                egr.model.decide(pkt)
+        ok = True
+        for n in game_lists:
+            l = luts[n]
+            sn = l.snap()
+            if sn.hits != l.model.hits or sn.implicit_hits != l.model.implicit_hits:
+                role = "ingress-list" if l is ing else "egress-list" if l is egr else "other-list"
+                res.violate(f"traffic-hit-mismatch:{pair}:{role}",
+                            f"{when}: {n}: expected hits {l.model.hits} implicit {l.model.implicit_hits}, state has {sn.hits} "
+                            f"implicit {sn.implicit_hits} (judged by {ing.name} then {egr.name})")
+                ok = False
+        if world["sent"] != expect_out:
+            res.violate(f"traffic-forward-mismatch:{pair}", f"{when}: expected the firewall to send on {expect_out}, it sent on "
+                        f"{world['sent']} ({ing.name}: {'PERMIT' if permitted1 else 'DENY'})")
+            ok = False
+        return ok
+
+    n_adds = n_removes = n_overwrites = n_probes = n_sends = n_resets = 0
     for i, op in enumerate(ops):
-        kind, name = op[0], op[1]
+        kind = op[0]
+        when = f"op#{i} {op}"
+        if kind == "reset":
+            n_resets += 1
+            try:
+                world["env"].reset()
+            except Exception as e:
+                res.violate(f"raise:reset:{exc_sig(e)}", f"{when}: {exc_msg(e)}")
+                break
+            attach(world["env"].game)
+            # the new episode is built from the same scenario: every list must again be exactly the loaded one
+            if not bind("reset"):
+                break
+            continue
+        if kind == "send":
+            n_sends += 1
+            if not send(op[1], tuple(op[2]), when):
+                break
+            continue
+        name = op[1]
         lut = luts[name]
         m = lut.model
-        when = f"op#{i} {op}"
         if kind == "probe":
             n_probes += 1
             if not probe(lut, tuple(op[2]), when):
@@ -518,7 +685,13 @@ def run_case(case: Dict) -> CaseResult:
         res.label("has-overwrite")
     if n_removes:
         res.label("has-remove-of-rule")
-    res.extra["probes"] = n_probes
+    if n_resets:
+        res.label("has-reset")
+    if n_sends:
+        res.label("has-send")
+    res.extra["probes"] = n_probes + n_sends
+    if world["env"] is not None:
+        world["env"].close()
     return res
 
 
@@ -734,6 +907,140 @@ def random_case(draw, max_rules: int = 24, falsy: bool = False):
     return case
 
 
+
+# ---------------------------------------------------------------------------------------------------------------------
+# traffic mode (which lists judge a packet crossing the firewall) and episode mode (the list after env.reset())
+
+WIRE_PORTS = [22, 80, 53, 21, 8080, 5432, 1234, 65535]  # not 219: a UDP frame on the ARP port must carry an ARP packet
+
+
+def traffic_cases(tier: str):
+    """All six (ingress zone, egress zone) pairs x {permit rule, deny rule, no rule = implicit action} on the ingress-side
+    list x the same on the egress-side list x every other list holding a catch-all PERMIT / DENY, rules installed through
+    the scenario / Python / request door in turn; three packets (tcp, udp, icmp) are put on the wire per case."""
+    k = 0
+    for a, b in ZONE_PAIRS:
+        src, dst = ZONES[a][1], ZONES[b][1]
+        flows = [[None, src, None, dst, None, None, None],                       # exact host pair
+                 [None, src.rsplit(".", 1)[0] + ".0", "0.0.0.255", None, None, None, None],  # source subnet, any destination
+                 [None, None, None, dst.rsplit(".", 1)[0] + ".0", "0.0.0.255", None, None]]  # any source, destination subnet
+        for ing in ("P", "D", "E"):
+            for egr in ("P", "D", "E"):
+                for others in ("PERMIT", "DENY"):
+                    k += 1
+                    rules: Dict[str, List] = {}
+                    flow = flows[k % 3]
+                    if ing != "E":
+                        rules[INGRESS_LIST[a]] = [[3 + k % 5, [{"P": "PERMIT", "D": "DENY"}[ing]] + flow]]
+                    if egr != "E":
+                        rules[EGRESS_LIST[b]] = [[7 + k % 11, [{"P": "PERMIT", "D": "DENY"}[egr]] + flow]]
+                    for x in FW_LISTS:
+                        if f"fw:{x}" not in (INGRESS_LIST[a], EGRESS_LIST[b]):
+                            rules[f"fw:{x}"] = [[k % 3, [others, None, None, None, None, None, None, None]]]
+                    sends = [["send", a, ["tcp", src, dst, 1234, WIRE_PORTS[k % 8]]],
+                             ["send", a, ["udp", src, dst, WIRE_PORTS[(k + 3) % 8], 1234]],
+                             ["send", a, ["icmp", src, dst, None, None]]]
+                    door = ("cfg", "py", "req")[k % 3]
+                    if door == "cfg":
+                        yield {"init": rules, "ops": sends, "kind": "traffic/cfg"}
+                    else:
+                        ops = [["add", n, door, p, r] for n, rr in sorted(rules.items()) for p, r in rr]
+                        yield {"ops": ops + sends, "kind": f"traffic/{door}"}
+
+
+@st.composite
+def traffic_case(draw):
+    """Random rule lists on all six firewall lists built around one flow, so that the lists disagree about it."""
+    a, b = draw(st.sampled_from(ZONE_PAIRS))
+    src, dst = ZONES[a][1], ZONES[b][1]
+    port = st.sampled_from(WIRE_PORTS)
+    focus = draw(st.lists(st.one_of(st.tuples(st.sampled_from(["tcp", "udp"]), st.just(src), st.just(dst), port, port),
+                                    st.just(("icmp", src, dst, None, None))).map(list), min_size=1, max_size=2))
+    init: Dict[str, List] = {}
+    ops: List[List] = []
+    for x in FW_LISTS:
+        n = f"fw:{x}"
+        k = draw(st.integers(0, 3))
+        poss = draw(st.permutations([0, 1, 2, 5, 22, 23]))[:k]
+        rules = [[p, draw(rule_strategy(draw(st.sampled_from(focus))))] for p in poss]
+        if n == INGRESS_LIST[a] and draw(st.integers(0, 9)) < 7:
+            # let the flow pass the ingress side most of the time, otherwise the egress-side lists are never asked
+            f0 = focus[0]
+            opener = ["PERMIT", draw(st.sampled_from([None, f0[0]])), draw(st.sampled_from([None, src])), None,
+                      draw(st.sampled_from([None, dst])), None, None, None]
+            rules = [[0, opener]] + [pr for pr in rules if pr[0] != 0]
+        door = draw(st.sampled_from(["cfg", "py", "req"]))
+        if door == "cfg":
+            if rules:
+                init[n] = rules
+        else:
+            ops += [["add", n, door, p, r] for p, r in rules]
+    ops = draw(st.permutations(ops))
+    sends = [["send", a, f] for f in focus]
+    for _ in range(draw(st.integers(1, 4))):  # neighbours of the flow and flows of other zone pairs
+        a2, b2 = draw(st.sampled_from([(a, b), (a, b), (b, a)] + ZONE_PAIRS))
+        if draw(st.booleans()):
+            sends.append(["send", a2, [draw(st.sampled_from(["tcp", "udp"])), ZONES[a2][1], ZONES[b2][1], draw(port), draw(port)]])
+        else:
+            sends.append(["send", a2, ["icmp", ZONES[a2][1], ZONES[b2][1], None, None]])
+    if draw(st.booleans()):  # change a list between two sends
+        n = draw(st.sampled_from([INGRESS_LIST[a], EGRESS_LIST[b]]))
+        sends.insert(draw(st.integers(1, len(sends))), ["add", n, draw(st.sampled_from(["py", "req"])), draw(st.sampled_from([0, 1, 2])),
+                                                        draw(rule_strategy(focus[0]))])
+        sends.append(["send", a, focus[0]])
+    if draw(st.booleans()):
+        sends.append(["probe", EGRESS_LIST[b], focus[0]])
+    case = {"ops": list(ops) + sends, "kind": "traffic/random"}
+    if init:
+        case["init"] = init
+    return case
+
+
+def episode_cases(tier: str):
+    """Single scenario-loaded rule at the router's (or a firewall list's) position 22 / 23 / 21 / 0 x the reduced rule
+    domain, probed in the constructed episode and again after each of two env.reset()."""
+    rules = reduced_rules(tier)
+    dom = "reduced_q" if tier == "quick" else "reduced"
+    k = 0
+    for pos, stride in ((22, 1), (23, 1), (21, 4), (0, 4)):
+        for r in rules[::stride]:
+            k += 1
+            name = "router" if k % 4 else GAME_LISTS[1 + (k // 4) % 6]
+            other = [["DENY", "tcp", None, None, None, None, None, 80], ["PERMIT", None, A1, None, None, None, None, None]][k % 2]
+            yield {"init": {name: [[pos, r]]}, "kind": "episode/single",
+                   "ops": [["probe_all", name, dom], ["reset"], ["probe_all", name, dom],
+                           ["add", name, ("py", "req")[k % 2], (5, 22, 23)[k % 3], other], ["probe_all", name, dom],
+                           ["reset"], ["probe_all", name, dom]]}
+
+
+@st.composite
+def episode_case(draw):
+    """Scenario-loaded lists with rules at the low and the highest positions, several episodes, changes in between."""
+    names = ["router"] + draw(st.lists(st.sampled_from(GAME_LISTS[1:]), max_size=2, unique=True))
+    focus = draw(st.lists(packet_strategy(), min_size=1, max_size=3))
+    init: Dict[str, List] = {}
+    for n in names:
+        k = draw(st.integers(1, 5))
+        poss = draw(st.permutations([0, 1, 2, 20, 21, 22, 23, 22, 23]))[:k]
+        init[n] = [[p, draw(rule_strategy(draw(st.sampled_from(focus))))] for p in sorted(set(poss))]
+    ops: List[List] = []
+    for ep in range(draw(st.integers(2, 4))):
+        if ep:
+            ops.append(["reset"])
+        for n in names:
+            for f in focus:
+                ops.append(["probe", n, f])
+        for _ in range(draw(st.integers(0, 2))):
+            n = draw(st.sampled_from(names))
+            via = draw(st.sampled_from(["py", "req"]))
+            p = draw(st.sampled_from([0, 1, 21, 22, 23]))
+            if draw(st.integers(0, 3)):
+                ops.append(["add", n, via, p, draw(rule_strategy(draw(st.sampled_from(focus))))])
+            else:
+                ops.append(["remove", n, via, p])
+            ops.append(["probe", n, draw(st.sampled_from(focus))])
+    return {"init": init, "ops": ops, "kind": "episode/random"}
+
 # ---------------------------------------------------------------------------------------------------------------------
 
 
@@ -748,7 +1055,8 @@ def worker(ctx: Ctx):
         return res
 
     quick = ctx.tier == "quick"
-    enum_run(ctx, itertools.chain(single_rule_cases(ctx.tier), two_rule_cases(ctx.tier)), run)
+    enum_run(ctx, itertools.chain(single_rule_cases(ctx.tier), two_rule_cases(ctx.tier), traffic_cases(ctx.tier),
+                                  episode_cases(ctx.tier)), run)
     ctx.extra["exhaustive"] = True
     nr, n2 = len(cover_rules(ctx.tier)), len(reduced_rules(ctx.tier))
     ctx.extra["exhaustive_domain"] = (
@@ -756,11 +1064,15 @@ def worker(ctx: Ctx):
         f"({'each rule through one of 4 doors' if quick else 'each rule through the Python API, and again through the request and scenario doors x ' + str(len(PACKET_DOMAINS['cover_diag'])) + ' packets'}); "
         f"two-rule lists: all {n2}x{n2} ordered pairs of the reduced domain, second rule above and below the first, x "
         f"{len(PACKET_DOMAINS['reduced_q' if quick else 'reduced'])} packets through py/request doors"
-        f"{'' if quick else ', and all ordered pairs through the scenario door'}"
+        f"{'' if quick else ', and all ordered pairs through the scenario door'}; traffic: 6 zone pairs x 3 ingress-list x 3 "
+        f"egress-list configurations x 2 catch-all actions on the other lists x 3 packets on the wire; episodes: single rules at "
+        f"positions 22/23 (all {n2}) and 21/0 (every 4th) x 3 episodes"
     )
     total = 2000 if quick else 32000
     n = max(1, total // ctx.n)
     n_falsy = max(1, n // 6)
     hyp_run(ctx, random_case(24, falsy=False), run, n - n_falsy, sub=0)
     hyp_run(ctx, random_case(24, falsy=True), run, n_falsy, sub=1)
+    hyp_run(ctx, traffic_case(), run, max(1, (320 if quick else 6400) // ctx.n), sub=2)
+    hyp_run(ctx, episode_case(), run, max(1, (200 if quick else 3200) // ctx.n), sub=3)
     ctx.extra["nontrivial_pairs_distinct"] = len(pairs)
